@@ -162,6 +162,43 @@ Theorem c04_enabled_list_exact_pinned_refuted :
 Proof. exact enabled_list_exact_pinned_refuted_lemma. Qed.
 Print Assumptions c04_enabled_list_exact_pinned_refuted.
 
+(* ---- the same decision at every entry point of main.rego: `report`, `aggregate` and `aggregate_report`,
+        each in its bundled and its custom variant ([branch_gate], Model/Precedence.v).  A rule that
+        ignored_rule says is off is never evaluated, whatever the file, the notices, or the aggregates
+        supplied to the aggregate_report run (they may stem from a run under another configuration) ---- *)
+
+Theorem c04_ignored_rule_never_reports : forall (custom : bool) (b : branch) (p : params) (merged : rules_map)
+                                                (cat title : str) (excluded noticed supplied : bool),
+  ignored_rule p (entry_of merged cat title) cat title = true ->
+  branch_gate custom b p merged cat title excluded noticed supplied = false.
+Proof. exact ignored_rule_never_fires. Qed.
+Print Assumptions c04_ignored_rule_never_reports.
+
+(* file not excluded, no notice, the rule's key among the supplied aggregates: the three entry points
+   are gated alike, for bundled rules and for custom rules *)
+Theorem c04_entry_points_gated_alike : forall (custom : bool) (b : branch) (p : params) (merged : rules_map)
+                                              (cat title : str),
+  branch_gate custom b p merged cat title false false true
+  = branch_gate custom BReport p merged cat title false false true.
+Proof. exact branch_gates_agree. Qed.
+Print Assumptions c04_entry_points_gated_alike.
+
+(* DetermineEnabledAggregateRules lists exactly the rules whose aggregate_report can run for some
+   supplied aggregates *)
+Theorem c04_enabled_aggregate_list_is_what_aggregate_report_runs :
+  forall (user : option config) (custom : list (str * str)) (p : params)
+         (bundled_agg custom_agg : list (str * str)) (t : str),
+  user_wf user = true ->
+  (forall c t', In (c, t') bundled_agg -> In (c, t') bundled_rules) ->
+  let merged := linter_config provided_rules user custom in
+  In t (determine_enabled_aggregate_rules p merged bundled_agg custom_agg) <->
+  (exists c, In (c, t) bundled_agg /\
+             exists supplied, branch_gate false BAggregateReport p merged c t false false supplied = true) \/
+  (exists c, In (c, t) custom_agg /\
+             exists supplied, branch_gate true BAggregateReport p merged c t false false supplied = true).
+Proof. exact bundle_enabled_aggregate_list_fires. Qed.
+Print Assumptions c04_enabled_aggregate_list_is_what_aggregate_report_runs.
+
 (* ---- the tables this rests on, re-proved against the tree on every check: every bundled rule has a
         provided level in {ignore, warning, error} and vice versa, rule names are unique ---- *)
 
@@ -196,3 +233,12 @@ Example c04_ex_aggregate_subset :
   let agg := [([105;109;112;111;114;116;115], [117;110;114;101;115;111;108;118;101;100;45;105;109;112;111;114;116])] in  (* imports/unresolved-import *)
   forall c t', In (c, t') agg -> In (c, t') bundled_rules.
 Proof. intros agg c t' [[= <- <-]|[]]. apply pair_in_spec. vm_compute. reflexivity. Qed.
+(* a custom aggregate rule switched off with --disable while aggregates collected for it earlier are supplied:
+   no entry point runs; without the --disable every one does *)
+Example c04_ex_disabled_custom_aggregate_rule :
+  let p := mkParams false [] [[114]] false [] [] in
+  ignored_rule p (entry_of (linter_config [] None [([99], [114])]) [99] [114]) [99] [114] = true /\
+  branch_gate true BAggregateReport p (linter_config [] None [([99], [114])]) [99] [114] false false true = false /\
+  branch_gate true BAggregateReport no_params (linter_config [] None [([99], [114])]) [99] [114] false false true = true /\
+  branch_gate true BAggregateReport no_params (linter_config [] None [([99], [114])]) [99] [114] false false false = false.
+Proof. vm_compute. repeat split. Qed.
